@@ -85,6 +85,15 @@ MUTANTS["C02"] = [
     # (not filtering old in _old_new_per_device is an equivalent mutant: _diff_and_patch filters old again)
 ]
 
+MUTANTS["C02"] += [
+    ("filter-acl-ignored (two cooperating sites)", "annet/gen.py", "            old = (old and patching.apply_acl(old, filter_acl_rules, fatal_acl=False))\n", "            pass\n",
+     [("annet/api/__init__.py", "    diff_tree = patching.make_diff(old, new, rb, [acl_rules, filter_acl_rules])", "    diff_tree = patching.make_diff(old, new, rb, [acl_rules])")]),
+    # ("acl-safe-old-taken-from-full-acl": safe_old = old is an equivalent mutant - _diff_and_patch applies acl_safe_rules to old again)
+    ("deploy-job-ignores-acl-safe-configs", "annet/api/__init__.py", "        old = res.get_old(self.args.acl_safe)\n        new = res.get_new(self.args.acl_safe)\n        acl_rules = res.get_acl_rules(self.args.acl_safe)\n        err = res.err",
+     "        old = res.get_old(False)\n        new = res.get_new(False)\n        acl_rules = res.get_acl_rules(self.args.acl_safe)\n        err = res.err"),
+]
+
+
 MUTANTS["C03"] = [
     ("strip-drops-level", "annet/annlib/patching.py", "        children = strip_unchanged(children)\n        passed.append((op, row, children, d_match))", "        children = strip_unchanged(children) if op != Op.MOVED else []\n        passed.append((op, row, children, d_match))"),
     ("mark_unchanged-any", "annet/annlib/patching.py", "            if all(x[0] == Op.UNCHANGED for x in children):", "            if children and any(x[0] == Op.UNCHANGED for x in children) or not children:"),
